@@ -37,7 +37,8 @@ def gen_treeinfo(rng, R=None):
     }
     if rng.random() < 0.15:
         d["release"]["name"] = "Scientific Linux %s" % d["release"]["version"]        # a name that already ends in the version
-    for t in rng.sample(["Server", "Client", "Workstation", "AppStream"], rng.randint(1, 3)):
+    # plain string order is the documented order: upper case before lower case ("RT" < "Resilient" < "client")
+    for t in rng.sample(["Server", "Client", "Workstation", "AppStream", "RT", "Resilient", "client", "baseOS"], rng.randint(1, 3)):
         d["variants"][t] = gen_variant(rng, t, t)
     if rng.random() < 0.3:                      # dashed top-level UID (the 'Server-optional' case), childless
         t = rng.choice(list(d["variants"]))
@@ -69,7 +70,7 @@ def gen_treeinfo(rng, R=None):
     return d
 
 
-def build_treeinfo(d):
+def build_treeinfo(d, key_only_children_by_uid=False):
     import productmd.treeinfo as TI
     ti = TI.TreeInfo()
     for k, v in d["release"].items():
@@ -81,17 +82,19 @@ def build_treeinfo(d):
     ti.tree.build_timestamp = d["tree"]["build_timestamp"]
     ti.tree.platforms = set(d["tree"]["platforms"])
 
-    def mk(vd, parent, top):
+    def mk(vd, parent, top, only=False):
         v = TI.Variant(ti)
         v.id, v.uid, v.name, v.type = vd["id"], vd["uid"], vd["name"], vd["type"]
         for f, p in vd["paths"].items():
             setattr(v.paths, f, p)
         if top:
             parent.add(v, variant_id=v.uid)
+        elif key_only_children_by_uid and only and len(v.uid) % 3 == 0:
+            parent.add(v, variant_id=v.uid)      # an only child registered under its UID: the mapping key is not content
         else:
             parent.add(v)
         for key in vd["children"]:
-            mk(vd["children"][key], v, False)
+            mk(vd["children"][key], v, False, only=len(vd["children"]) == 1)
 
     for key in d["variants"]:
         mk(d["variants"][key], ti.variants, True)
@@ -156,17 +159,21 @@ def _dumps(ti, mv):
 def impl_roundtrip(case):
     import productmd.treeinfo as TI
     try:
-        ti = build_treeinfo(case["desc"])
+        ti = build_treeinfo(case["desc"], key_only_children_by_uid=True)
     except EXC as e:
         return ["build-error", type(e).__name__, str(e)[:200]]
+    from suites.common import snap
+    before = snap(ti)
     try:
         text = _dumps(ti, case.get("main_variant"))
     except EXC as e:
         return exc_result(e)
     except Exception as e:       # configparser errors
         return ["err", "Other:" + type(e).__name__]
+    if snap(ti) != before:
+        return ["api-inconsistent", ["writing changed the object itself (its public state before and after dumps() differs)"]]
     if case.get("main_variant") is None:
-        api = api_consistency(ti, TI.TreeInfo, text)
+        api = api_consistency(ti, TI.TreeInfo, text, before=before)
         if api:
             return ["api-inconsistent", api]
     table = section_table(text)
